@@ -25,7 +25,8 @@ def shapes():
     remote_peer = StateShape(rp.ConnectedRemotePeer, local_peer=full_local_peer, host=STR, port=INT, direction=STR,
                              hello_received=BOOL, hello_sent=BOOL, ban_score=INT,
                              inventory_messages=('const', ('opaque',)))
-    header = StateShape(msg.MessageHeader, version=INT, timestamp=INT, id=INT, in_response_to=INT, context=INT)
+    header = StateShape(msg.MessageHeader, version=INT, timestamp=INT, id=INT, in_response_to=INT, context=INT,
+                        format=('const', ('opaque',)))
     data_block = StateShape(msg.DataMessage, data_type=BYTES, data=CLS('Block'))
     data_tx = StateShape(msg.DataMessage, data_type=BYTES, data=CLS('Transaction'))
     store = StateShape(bs.BlockStore, lock=('const', ('lock',)),
